@@ -31,6 +31,7 @@ import (
 
 	"github.com/lindb/lindb/index/model"
 	v1 "github.com/lindb/lindb/index/v1"
+	"github.com/lindb/lindb/internal/verifhook"
 	"github.com/lindb/lindb/kv"
 	"github.com/lindb/lindb/kv/version"
 	"github.com/lindb/lindb/pkg/imap"
@@ -341,6 +342,7 @@ func (s *indexKVStore) getOrCreateValue(bucketID uint32, key []byte,
 	if createFn == nil {
 		return 0, false, false, nil
 	}
+	verifhook.Yield("index.kvstore.beforeCreate")
 	id, err = s.createValue(bucketID, key, createFn)
 	if err != nil {
 		return 0, false, false, err
